@@ -1,3 +1,126 @@
+import BU.Py
+import BU.Gen.Tables
+import BU.Spec.Base58
 import BU.Model.Address
+import BU.Model.Keys
+import BU.Proofs.Base58Lemmas
+import BU.Proofs.AddressLemmas
+/-!
+# C10 — Base58Check addresses (P2PKH, P2SH) round-trip and are validated, per network
+
+M: `Model.addrToString`, `isAddressValid`, `addressToHash160`, `addrFromString`, `addrFromHash160`
+(`Address.__init__`, `_is_address_valid`, `_address_to_hash160`, `to_string`); `base58check` = `Spec.B58`.
+-/
 namespace C10
+open Py Spec Model
+
+/-- **T-tie**: every network has one-byte P2PKH / P2SH version prefixes with the standard values -/
+theorem prefixes :
+    (∀ e ∈ Gen.NETWORK_P2PKH_PREFIXES, e.2.length = 1 ∧ (e.1 = "mainnet" → e.2 = [0x00]) ∧ (e.1 ≠ "mainnet" → e.2 = [0x6f])) ∧
+    (∀ e ∈ Gen.NETWORK_P2SH_PREFIXES, e.2.length = 1 ∧ (e.1 = "mainnet" → e.2 = [0x05]) ∧ (e.1 ≠ "mainnet" → e.2 = [0xc4])) ∧
+    Gen.NETWORK_P2PKH_PREFIXES.map (·.1) = ["mainnet", "signet", "testnet", "regtest"] ∧
+    Gen.NETWORK_P2SH_PREFIXES.map (·.1) = ["mainnet", "signet", "testnet", "regtest"] := by
+  refine ⟨?_, ?_, ?_, ?_⟩
+  · decide +kernel
+  · decide +kernel
+  · decide +kernel
+  · decide +kernel
+
+/-- address strings equal Base58Check(version byte ‖ hash) -/
+theorem to_string_eq (dsha : Bytes → Bytes) (pfx h : Bytes) : addrToString dsha pfx h = B58.check dsha (pfx ++ h) := by
+  rfl
+
+/-- an address object accepts a string **only if** it is Base58Check with a valid checksum, the version byte of
+that address type on the configured network and a 20-byte payload — and then holds exactly that payload -/
+theorem accept_sound (dsha : Bytes → Bytes) (pfx : Bytes) (hp : pfx.length = 1) (s : String) (h : Bytes)
+    (ha : addrFromString dsha pfx s = .ok h) :
+    h.length = 20 ∧ B58.uncheck dsha s = some (pfx ++ h) := by
+  unfold addrFromString at ha
+  by_cases he : s.isEmpty = true
+  · simp [he, bind, Except.bind, throw, throwThe, MonadExceptOf.throw] at ha
+  · cases hv : isAddressValid dsha pfx s with
+    | error e => simp [he, hv, bind, Except.bind] at ha
+    | ok ok =>
+      cases ok with
+      | false => simp [he, hv, bind, Except.bind, throw, throwThe, MonadExceptOf.throw] at ha
+      | true =>
+        obtain ⟨dc, hdc, hlen, hpfx, hcs⟩ := AddressLemmas.isAddressValid_true hv
+        simp [he, hv, bind, Except.bind, addressToHash160, hdc, hlen] at ha
+        subst ha
+        simp only [← List.drop_one]
+        have h1 : ((dc.take 21).drop 1).length = 20 := by
+          simp [hlen]
+        have h2 : pfx ++ (dc.take 21).drop 1 = dc.take 21 := by
+          have : (dc.take 21).take 1 = pfx := by
+            rw [List.take_take]; simpa using hpfx
+          rw [← this]
+          exact List.take_append_drop 1 _
+        refine ⟨h1, ?_⟩
+        unfold B58.uncheck
+        simp only [hdc, hlen, h2]
+        simp [hcs]
+
+/-- decoding an address returns the hash that produced it (for every 20-byte hash incl. leading zero bytes; the
+26..35 character window of the code is a hypothesis: it holds for all but the degenerate all-zero mainnet
+payload, which the correspondence run evaluates) -/
+theorem roundtrip (dsha : Bytes → Bytes) (hd : ∀ x, (dsha x).length = 32) (pfx : Bytes) (hp : pfx.length = 1)
+    (h : Bytes) (hh : h.length = 20)
+    (hw : 26 ≤ (addrToString dsha pfx h).toList.length ∧ (addrToString dsha pfx h).toList.length ≤ 35) :
+    addrFromString dsha pfx (addrToString dsha pfx h) = .ok h := by
+  have hpay : (pfx ++ h ++ (dsha (pfx ++ h)).take 4).length = 25 := by
+    simp [List.length_append, List.length_take, hd, hp, hh]
+  have hstr : addrToString dsha pfx h = B58.encode (pfx ++ h ++ (dsha (pfx ++ h)).take 4) := rfl
+  have hdc := Base58Lemmas.decode_encode (pfx ++ h ++ (dsha (pfx ++ h)).take 4)
+  rw [← hstr] at hdc
+  have hph : (pfx ++ h).length = 21 := by simp [hp, hh]
+  have ht21 : (pfx ++ h ++ (dsha (pfx ++ h)).take 4).take 21 = pfx ++ h := by
+    rw [List.take_left' hph]
+  have hd21 : (pfx ++ h ++ (dsha (pfx ++ h)).take 4).drop 21 = (dsha (pfx ++ h)).take 4 := by
+    rw [List.drop_left' hph]
+  have ht1 : (pfx ++ h ++ (dsha (pfx ++ h)).take 4).take 1 = pfx := by
+    rw [List.append_assoc, List.take_left' hp]
+  have hv : isAddressValid dsha pfx (addrToString dsha pfx h) = .ok true := by
+    apply AddressLemmas.isAddressValid_of (dc := pfx ++ h ++ (dsha (pfx ++ h)).take 4)
+    · rw [hstr]; exact AddressLemmas.encode_all_alphabet _
+    · exact hw
+    · exact hdc
+    · exact hpay
+    · exact ht1
+    · rw [ht21, hd21]
+  have hne : (addrToString dsha pfx h).isEmpty = false := by
+    cases hE : (addrToString dsha pfx h).isEmpty with
+    | false => rfl
+    | true =>
+      have : (addrToString dsha pfx h).toList = [] := by
+        simpa [String.isEmpty_iff] using hE
+      rw [this] at hw
+      simp at hw
+  unfold addrFromString
+  simp only [hne, hv, bind, Except.bind, addressToHash160, hdc, hpay, Nat.reduceSub, ht21,
+    List.drop_left' hp]
+  rfl
+
+/-- hash160 construction accepts exactly 20 bytes -/
+theorem from_hash160 (h : Bytes) : (addrFromHash160 h = .ok h ↔ h.length = 20) := by
+  unfold addrFromHash160
+  constructor
+  · intro h1
+    split at h1
+    · simp at h1
+    · split at h1
+      · simp at h1
+      · rename_i h2; simpa using h2
+  · intro h1
+    have : h.isEmpty = false := by
+      cases h with
+      | nil => simp at h1
+      | cons a t => rfl
+    simp [this, h1]
+
+/-- addresses derived from a public key commit to the HASH160 of the chosen SEC encoding -/
+theorem pubkey_address (sha256 : Bytes → Bytes) (tb : Rmd.Tabs) (pfx : Bytes) (P : Nat × Nat) (c : Bool) :
+    addrToString (fun b => sha256 (sha256 b)) pfx (pubHash160 sha256 tb P c) =
+      B58.check (fun b => sha256 (sha256 b)) (pfx ++ Rmd.ripemd160 tb (sha256 (pubToBytes P c))) := by
+  rfl
+
 end C10
